@@ -3,7 +3,7 @@
    Model/Cable.v (assembly of the cable system of a cell; schemes).  The conductance
    formulas G*.X are regenerated from /repo on every run. *)
 From Coq Require Import Reals List Lia Lra.
-From JV Require Import Prim TreeSolve TreeSolveFacts Cable GCellUtils CableFacts HinesArr HinesCheck HinesArrFacts HinesIdx HinesTreeFacts HinesIdxFacts HinesArrPositive AsmStruct AssembleM AssembleTotal AsmIdx AsmIdxFacts AssembleGraph AsmGraphFacts EdgeCond EdgeCondFacts GraphStruct GraphStructFacts HinesForestFacts HinesIdxF HinesIdxFFacts AsmIdxF AsmIdxFFacts AsmGraphFFacts ForestPhysical.
+From JV Require Import Prim TreeSolve TreeSolveFacts Cable GCellUtils CableFacts HinesArr HinesCheck HinesArrFacts HinesIdx HinesTreeFacts HinesIdxFacts HinesArrPositive AsmStruct AssembleM AssembleTotal AsmIdx AsmIdxFacts AssembleGraph AsmGraphFacts EdgeCond EdgeCondFacts GraphStruct GraphStructFacts HinesForestFacts HinesIdxF HinesIdxFFacts AsmIdxF AsmIdxFFacts AsmGraphFFacts ForestPhysical GraphCN CNFacts GraphMax SparseAsm SparseFacts SparseInst SparseDense.
 Import ListNotations.
 Local Open Scope R_scope.
 
@@ -404,3 +404,102 @@ Proof.
   - intros b Hb. do 7 (destruct b as [|b]; [cbn; intros; try discriminate; lia|]). cbn in Hb. lia.
   - intros b Hb. do 7 (destruct b as [|b]; [cbn; lia|]). cbn in Hb. lia.
 Qed.
+
+(* ================= Crank-Nicolson at the array level =================
+   Module.step returns 2 * (implicit step with dt/2) - V.  outflow x y c = vt_c x_c + sum_{e into c} g_e (x_c - value at
+   source(e)) - ct_c is the current leaving compartment c in state (x, y). *)
+
+(* for EVERY cell / EVERY network that vector is the implicit-midpoint update of the conductance graph *)
+Theorem C01_crank_nicolson_step_of_every_cell :
+  forall (ps ns : list nat) (es : list (edge R)) (v vt ct : nat -> R) (dt : R),
+  (1 <= length ps)%nat -> (forall b, (1 <= b)%nat -> (b < length ps)%nat -> (nth b ps 0 < b)%nat) ->
+  (forall b, (b < length ps)%nat -> (1 <= nth b ns 0)%nat) ->
+  map strip es = triples_of ps ns ->
+  0 < dt -> (forall e, In e es -> 0 < e_g R e) -> (forall i, (i < total ps ns)%nat -> 0 <= vt i) ->
+  let ly := layout_of ps ns in let tp := topo_of ps in let mask := nthD (mask_of ps ns) in let n := total ps ns in
+  let s0 := assemble R Rplus Rminus Rmult 0 1 mask n es v vt ct (dt / 2) (group_of ps) (child_inds_of ps) (par_inds_of ps) in
+  let half := sv (run R Rplus Rminus Rmult Rdiv 0 1 ly (ops_of_tree ps ns) s0) in
+  let z := fun c => 2 * half (mask c) - v c in
+  exists y, (forall c, (c < n)%nat -> z c - v c + dt * outflow mask n es vt ct half y c = 0 /\ half (mask c) = (z c + v c) / 2) /\
+            (forall j, (j < nbp tp)%nat -> bp_graph mask n es half y j = 0).
+Proof. exact cell_cn_step. Qed.
+
+Theorem C01_crank_nicolson_step_of_every_network :
+  forall (ps ns : list nat) (rs : list bool) (es : list (edge R)) (v vt ct : nat -> R) (dt : R),
+  (1 <= length ps)%nat -> (forall b, (b < length ps)%nat -> is_root rs b = false -> (nth b ps 0 < b)%nat) ->
+  (forall b, (b < length ps)%nat -> (1 <= nth b ns 0)%nat) ->
+  map strip es = triples_ofF ps ns rs ->
+  0 < dt -> (forall e, In e es -> 0 < e_g R e) -> (forall i, (i < total ps ns)%nat -> 0 <= vt i) ->
+  let ly := layout_ofF ps ns rs in let tp := topo_ofF ps rs in let mask := nthD (mask_ofF ps ns rs) in let n := total ps ns in
+  let s0 := assemble R Rplus Rminus Rmult 0 1 mask n es v vt ct (dt / 2) (group_ofF ps rs) (child_inds_ofF ps rs) (par_inds_ofF ps rs) in
+  let half := sv (run R Rplus Rminus Rmult Rdiv 0 1 ly (ops_of_forest ps ns rs) s0) in
+  let z := fun c => 2 * half (mask c) - v c in
+  exists y, (forall c, (c < n)%nat -> z c - v c + dt * outflow mask n es vt ct half y c = 0 /\ half (mask c) = (z c + v c) / 2) /\
+            (forall j, (j < nbp tp)%nat -> bp_graph mask n es half y j = 0).
+Proof. exact network_cn_step. Qed.
+
+(* ... and the midpoint update is the trapezoidal (Crank-Nicolson) update: with branch-point values yv in Kirchhoff
+   balance with the old voltages, (z - v) + dt/2 (outflow(z, 2y - yv) + outflow(v, yv)) = 0 and 2y - yv balances z *)
+Theorem C01_crank_nicolson_is_trapezoidal :
+  forall (ly : layout) (tp : topo) (mask : nat -> nat) (ncomp : nat) (es : list (edge R)) (v vt ct : nat -> R) (dt : R) (h y vs yv : nat -> R),
+  graph_eq ly tp mask ncomp es v vt ct (dt / 2) h y ->
+  (forall c, (c < ncomp)%nat -> vs (mask c) = v c) ->
+  (forall j, (j < nbp tp)%nat -> bp_graph mask ncomp es vs yv j = 0) ->
+  (forall c, (c < ncomp)%nat -> zcn h vs (mask c) - v c + dt / 2 * (outflow mask ncomp es vt ct (zcn h vs) (ycn y yv) c + outflow mask ncomp es vt ct vs yv c) = 0) /\
+  (forall j, (j < nbp tp)%nat -> bp_graph mask ncomp es (zcn h vs) (ycn y yv) j = 0).
+Proof. intros ly tp mask ncomp es v vt ct dt h y vs yv H1 H2 H3. exact (cn_is_trapezoidal ly tp mask ncomp es v vt ct dt h y H1 vs H2 yv H3). Qed.
+
+(* ================= the jax.sparse backend =================
+   Model/SparseAsm.v is the linear system step_voltage_implicit_with_jax_spsolve hands to spsolve (node space; the
+   harness intercepts the call and compares the matrix entry by entry, exact rationals vs floats).  It is equivalent
+   to the backward-Euler equations of the conductance graph, so for EVERY cell and EVERY network it has exactly one
+   solution on the compartments, and that solution is the output of the level-ordered elimination of the jaxley
+   backends: the backends cannot return different voltages in exact arithmetic. *)
+Theorem C01_sparse_backend_same_solution_for_every_cell :
+  forall (ps ns : list nat) (es : list (edge R)) (v vt ct : nat -> R) (dt : R),
+  (1 <= length ps)%nat -> (forall b, (1 <= b)%nat -> (b < length ps)%nat -> (nth b ps 0 < b)%nat) ->
+  (forall b, (b < length ps)%nat -> (1 <= nth b ns 0)%nat) ->
+  map strip es = triples_of ps ns ->
+  0 < dt -> (forall e, In e es -> 0 < e_g R e) -> (forall i, (i < total ps ns)%nat -> 0 <= vt i) ->
+  let ly := layout_of ps ns in let tp := topo_of ps in let mask := nthD (mask_of ps ns) in let n := total ps ns in
+  let s0 := assemble R Rplus Rminus Rmult 0 1 mask n es v vt ct dt (group_of ps) (child_inds_of ps) (par_inds_of ps) in
+  let out := sv (run R Rplus Rminus Rmult Rdiv 0 1 ly (ops_of_tree ps ns) s0) in
+  (exists z, sparse_eq tp n es v vt ct dt z /\ forall c, (c < n)%nat -> z c = out (mask c)) /\
+  (forall z, sparse_eq tp n es v vt ct dt z -> forall c, (c < n)%nat -> z c = out (mask c)).
+Proof. exact cell_sparse_backend_same_solution. Qed.
+
+Theorem C01_sparse_backend_same_solution_for_every_network :
+  forall (ps ns : list nat) (rs : list bool) (es : list (edge R)) (v vt ct : nat -> R) (dt : R),
+  (1 <= length ps)%nat -> (forall b, (b < length ps)%nat -> is_root rs b = false -> (nth b ps 0 < b)%nat) ->
+  (forall b, (b < length ps)%nat -> (1 <= nth b ns 0)%nat) ->
+  map strip es = triples_ofF ps ns rs ->
+  0 < dt -> (forall e, In e es -> 0 < e_g R e) -> (forall i, (i < total ps ns)%nat -> 0 <= vt i) ->
+  let ly := layout_ofF ps ns rs in let tp := topo_ofF ps rs in let mask := nthD (mask_ofF ps ns rs) in let n := total ps ns in
+  let s0 := assemble R Rplus Rminus Rmult 0 1 mask n es v vt ct dt (group_ofF ps rs) (child_inds_ofF ps rs) (par_inds_ofF ps rs) in
+  let out := sv (run R Rplus Rminus Rmult Rdiv 0 1 ly (ops_of_forest ps ns rs) s0) in
+  (exists z, sparse_eq tp n es v vt ct dt z /\ forall c, (c < n)%nat -> z c = out (mask c)) /\
+  (forall z, sparse_eq tp n es v vt ct dt z -> forall c, (c < n)%nat -> z c = out (mask c)).
+Proof. exact network_sparse_backend_same_solution. Qed.
+
+(* the rows of the sparse system ARE the graph equations in node space *)
+Theorem C01_sparse_system_is_the_graph_system :
+  forall (ly : layout) (tp : topo) (mask : nat -> nat) (ncomp : nat) (es : list (edge R)) (v vt ct : nat -> R) (dt : R) (group child_inds par_inds : list nat),
+  graph_struct ly tp mask ncomp es group child_inds par_inds -> graph_struct_bp ly mask ncomp es group child_inds par_inds ->
+  (forall e, In e es -> (e_type R e <= 4)%nat) -> dt <> 0 ->
+  forall z, sparse_eq tp ncomp es v vt ct dt z <-> node_eq tp ncomp es v vt ct dt z.
+Proof. exact sparse_iff_node. Qed.
+
+(* non-vacuity / the transposition convention: the edge 0 -> 1 with conductance 3 puts -dt*3 in ROW 1 (its sink) *)
+Example C01_sparse_entry_example :
+  let es := [mkedge 0%nat 1%nat 0%nat 3; mkedge 1%nat 0%nat 0%nat 5] in
+  sp_entry R Rplus Rminus Rmult 0 1 2 es (fun _ => 0) 2 1 0 = 0 - 2 * 3 /\
+  sp_entry R Rplus Rminus Rmult 0 1 2 es (fun _ => 0) 2 0 1 = 0 - 2 * 5.
+Proof. cbv zeta. unfold sp_entry, sp_off, sp_sum. cbn. split; lra. Qed.
+
+(* the dense matrix that the harness compares with the code, applied to a vector, is the row form used above *)
+Theorem C01_sparse_dense_rows :
+  forall (ncomp n_nodes : nat) (es : list (edge R)) (vt : nat -> R) (dt : R) (z : nat -> R),
+  (forall e, In e es -> e_source R e <> e_sink R e) -> (forall e, In e es -> (e_source R e < n_nodes)%nat) ->
+  forall i, (i < n_nodes)%nat ->
+  rsum (fun j => sp_entry R Rplus Rminus Rmult 0 1 ncomp es vt dt i j * z j) n_nodes = sp_row R Rplus Rminus Rmult 0 1 ncomp es vt dt z i.
+Proof. exact dense_row_is_sp_row. Qed.
